@@ -228,7 +228,9 @@ def build_binary(job, work, d, jr, extra_defs):
 
 
 def check_binary(job, work, d, jr, cur, tier):
-    timeout = int(os.environ.get("VERIF_TIMEOUT", job.get("timeout", 900) * (3 if tier == "thorough" else 1)))
+    # generous limits: the stated per-job timeouts are about 4x the time measured on an idle 16-core machine; doubled again so
+    # that a loaded machine produces a slow answer rather than a tool error
+    timeout = int(os.environ.get("VERIF_TIMEOUT", job.get("timeout", 900) * (3 if tier == "thorough" else 2)))
     cmd = ["cbmc", cur, "--drop-unused-functions"] + [c for c in CBMC_CHECKS if c not in job.get("checks_off", [])]
     if job.get("unwind"):
         cmd += ["--unwind", str(job["unwind_thorough"] if tier == "thorough" and job.get("unwind_thorough") else job["unwind"]),
@@ -332,6 +334,7 @@ def check_binary(job, work, d, jr, cur, tier):
         jr.failed = failed
         # fetch a trace for the first failing obligation
         r0 = failed[0]
+        cmd = [c for c in cmd if c != "--slice-formula"]      # keep the recorded inputs (in_*) in the counterexample trace
         if job.get("small_cex"):
             # ask for a counterexample that can be materialised natively: same job, sizes bounded by -DSMALL_CEX; if the
             # obligation does not fail under that bound the unrestricted counterexample is used
